@@ -277,6 +277,13 @@ func runEdge(rep *core.Report, e edge, l sim.Layout) {
 			switch e.Op {
 			case "DBWrite":
 				operr = vconn.WriteDB(0, l.PageBytes(1, sim.Content{V: 77, Sz: 2, Wal: e.Mode == "wal"}))
+			case "DBWriteCkpt":
+				// a checkpointer's page write: WAL_CKPT_LOCK (byte 121 of the -shm file) held exclusively first
+				_ = vconn.OpenSHM()
+				if operr = vconn.LockSHM(fuse.LockWrite, 121, 121); operr == nil {
+					operr = vconn.WriteDB(0, l.PageBytes(1, sim.Content{V: 78, Sz: 2, Wal: true}))
+					_ = vconn.LockSHM(fuse.LockUnlock, 121, 121)
+				}
 			case "DBTruncate":
 				sz, _ := vconn.DBSize()
 				operr = vconn.TruncateDB(sz)
@@ -534,7 +541,7 @@ demoted:
 	}
 	// M2: page, journal and WAL writes are refused with a read-only permission error
 	switch e.Op {
-	case "DBWrite", "JWrite", "JZeroHeader", "WHeader", "WFrame":
+	case "DBWrite", "DBWriteCkpt", "JWrite", "JZeroHeader", "WHeader", "WFrame":
 		if operr == nil {
 			violate(rep, "C07.write-refused", "write-accepted/"+e.Op, detail, e, l)
 		} else if sim.Errno(operr) != syscall.EACCES {
